@@ -84,7 +84,9 @@ def _body(case, ctx):
     rhs = float(np.sum(SF * u64)) * vol
     W = w.astype(np.float64)
     wsum = np.abs(W).reshape(-1, n).sum(axis=0) * vol  # ~1 per marker
-    S = float(np.sum(np.abs(F64) * wsum)) * float(np.max(np.abs(u64)) if u64.size else 0.0) + pre_mag * float(np.max(np.abs(u64))) * vol * np.prod(shape) / max(calls, 1) * 0
+    umax = float(np.max(np.abs(u64))) if u64.size else 0.0
+    # sum|terms| of both sides: |F| * (sum_cells w dx^d ~ 1) * max|u| ; the pre-fill enters SF through the subtraction
+    S = float(np.sum(np.abs(F64) * wsum)) * umax
     tol = 64 * eps * (S + pre_mag * float(np.sum(np.abs(u64))) * vol) + 1e-300
     ctx.extra["max_adjoint_err_over_tol"] = max(ctx.extra.get("max_adjoint_err_over_tol", 0.0), abs(lhs - rhs) / tol)
     if abs(lhs - rhs) > tol:
